@@ -85,8 +85,8 @@ Qed.
 Lemma canon_shift_neg p e j : Z.odd (Zpos p) = true -> 0 <= j ->
   canon (- (Zpos p * 2 ^ j)) (e - j) = NFloat (Zneg p) e.
 Proof.
-  intros Ho Hj. rewrite <- (Z2Nat.id j Hj), <- iter_xO_value. unfold canon. simpl Z.opp.
-  rewrite canon_pos_shift, canon_pos_odd by exact Ho. simpl. f_equal. lia.
+  intros Ho Hj. rewrite <- (Z2Nat.id j Hj), <- iter_xO_value. simpl Z.opp. unfold canon.
+  rewrite canon_pos_shift, canon_pos_odd by exact Ho. simpl Z.opp. f_equal. lia.
 Qed.
 
 (** [b64_pos] on the fraction of a positive well-formed float. *)
@@ -119,7 +119,7 @@ Proof.
   pose proof (scaled_frac_of m e j Hm Hj) as S. fold n d in S.
   assert (S' : fst (scaled n d (e - j)) = m * 2 ^ j * snd (scaled n d (e - j)) /\ 0 < snd (scaled n d (e - j))).
   { unfold n, d. destruct (frac_of m e). exact S. }
-  clear S. destruct S' as [S1 S2]. destruct (scaled n d (e - j)) as [a b]. simpl in S1, S2. subst a.
+  clear S. destruct S' as [S1 S2]. destruct (scaled n d (e - j)) as [a b]. cbn [fst snd] in S1, S2. subst a.
   rewrite rne_div_exact by exact S2.
   assert (Mlt : m * 2 ^ j < 2 ^ 53).
   { assert (2 ^ j <= 2 ^ (52 - L)) by (apply Z.pow_le_mono_r; lia).
@@ -127,6 +127,7 @@ Proof.
     { replace 53 with (1 + L + (52 - L)) by lia. rewrite !Z.pow_add_r by lia. reflexivity. }
     assert (0 < 2 ^ j) by (apply pow2_pos'; lia). rewrite P'. nia. }
   replace (m * 2 ^ j =? 2 ^ 53) with false by (symmetry; apply Z.eqb_neq; lia).
+  cbv beta iota.
   replace (971 <? e - j) with false; [reflexivity|].
   symmetry. apply Z.ltb_ge. unfold j, ef. lia.
 Qed.
@@ -137,7 +138,10 @@ Proof. unfold to_frac, frac_of. destruct (0 <=? e); reflexivity. Qed.
 
 Lemma to_frac_float_neg p e : to_frac (NFloat (Zneg p) e) =
   (- fst (frac_of (Zpos p) e), Z.to_pos (snd (frac_of (Zpos p) e))).
-Proof. unfold to_frac, frac_of. destruct (0 <=? e); simpl; reflexivity. Qed.
+Proof.
+  unfold to_frac, frac_of. destruct (0 <=? e); cbn [fst snd]; [|reflexivity].
+  f_equal. change (Zneg p) with (- Zpos p). ring.
+Qed.
 
 (** The rounding function is the identity on well-formed floats. *)
 Theorem b64_exact f : wf_float f ->
